@@ -26,6 +26,9 @@ def leaf_of(i):
 
 
 def relpath_of(i, nested=False):
+    if NAME_SCHEME == 'samebase':
+        # every file in its own directory, all with one basename
+        return ['d%02d' % i, 'same.bin']
     if nested and i % 3 == 1:
         return ['d%d' % (i % 2), leaf_of(i)]
     return [leaf_of(i)]
